@@ -840,7 +840,6 @@ func family(f *ssa.Function) []*ssa.Function {
 	return out
 }
 
-
 // paramOfType returns the n-th (0-based) non-receiver parameter whose type is the named type
 // pkg.name ("gen.PID"), or whose type string equals name for unnamed types ("error").
 func paramOfType(f *ssa.Function, name string, n int) *ssa.Parameter {
@@ -1055,4 +1054,45 @@ func resolveLocalCopy(v ssa.Value) ssa.Value {
 		return val
 	}
 	return v
+}
+
+// loopHeaderOf: the header block (the one entered from outside) of the innermost loop — here the
+// strongly connected component — containing in; nil if in is not in a loop or the loop has several entries.
+func loopHeaderOf(in ssa.Instruction) *ssa.BasicBlock {
+	b := in.Block()
+	fwd := map[*ssa.BasicBlock]bool{}
+	bwd := map[*ssa.BasicBlock]bool{}
+	var walk func(x *ssa.BasicBlock, m map[*ssa.BasicBlock]bool, succ bool)
+	walk = func(x *ssa.BasicBlock, m map[*ssa.BasicBlock]bool, succ bool) {
+		next := x.Succs
+		if !succ {
+			next = x.Preds
+		}
+		for _, n := range next {
+			if !m[n] {
+				m[n] = true
+				walk(n, m, succ)
+			}
+		}
+	}
+	walk(b, fwd, true)
+	if !fwd[b] {
+		return nil
+	}
+	walk(b, bwd, false)
+	var header *ssa.BasicBlock
+	for x := range fwd {
+		if !bwd[x] {
+			continue
+		}
+		for _, pr := range x.Preds {
+			if !(fwd[pr] && bwd[pr]) {
+				if header != nil && header != x {
+					return nil
+				}
+				header = x
+			}
+		}
+	}
+	return header
 }
